@@ -331,6 +331,8 @@ def _describe_generators(ctx: Ctx, cls_name: str, sn: str, defs: dict, gens: lis
 
     for tg, it0, ifs in gens:
         it = _strip_order(it0)
+        if isinstance(it, ast.Name) and it.id not in list_vars and it.id not in idx_vars:
+            it = _strip_order(res(it))  # a snapshot bound to a local: list(reversed(self.active_non_leaves))
         t_it = canon(it)
         handled = False
         if isinstance(it, ast.Call) and norm(it.func) == "range" and len(it.args) == 1 and isinstance(tg, ast.Name):
